@@ -25,14 +25,16 @@ def sh(cmd, cwd=None, env=None, timeout=1800):
 def main():
     pid, n = sys.argv[1], sys.argv[2]
     extra = sys.argv[3:]
-    src = f"/tmp/seed/out/{pid}"
-    wt = f"/tmp/seed/{pid}"
+    root = os.environ.get("SEEDROOT", "/tmp/seed")
+    tag = os.environ.get("SEEDTAG", "")
+    src = f"{root}/out/{pid}"
+    wt = f"{root}/{pid}"
     diff, demo, note = f"{src}/change{n}.diff", f"{src}/demo{n}.py", f"{src}/note{n}.txt"
     for f in (diff, demo):
         if not os.path.exists(f):
             print("missing", f)
             return 2
-    meta = {"property": pid, "variant": int(n), "ran": []}
+    meta = {"property": pid, "variant": int(n), "round": tag or "r1", "ran": []}
     sh("git checkout -- . && git clean -fdq", cwd=wt)
     rc, out = sh(f"PYTHONPATH={wt} {PY} {demo}", cwd=wt, timeout=600)
     meta["demo_without_change"] = {"rc": rc, "tail": out[-300:]}
@@ -69,7 +71,7 @@ def main():
         sh("git checkout -- .", cwd="/repo")
     meta["verdicts"] = verdicts
     meta["detected_by"] = [c for c, v in verdicts.items() if v["rc"] == 1]
-    dst = f"/verif/seeded/{pid}_{n}"
+    dst = f"/verif/seeded/{pid}_{tag}{n}"
     os.makedirs(dst, exist_ok=True)
     shutil.copy(diff, f"{dst}/patch.diff")
     shutil.copy(demo, f"{dst}/demo.py")
